@@ -264,6 +264,24 @@ class PureTr:
                 nm = self.fresh(tgt.id)
                 self.env[tgt.id] = (nm, t)
                 return f"(let {nm} := {c} in\n {self.block(rest)})"
+            if isinstance(tgt, ast.Tuple) and isinstance(s.value, ast.Tuple) and len(tgt.elts) == len(s.value.elts) \
+                    and all(isinstance(e, ast.Name) for e in tgt.elts):
+                # a, b = x, y : python evaluates the right-hand side first; the values are bound before any target is rebound
+                vals = [self.expr(e) for e in s.value.elts]
+                lets = []
+                for e, v in zip(tgt.elts, vals):
+                    if isinstance(v, Const):
+                        self.env[e.id] = v
+                        continue
+                    c, t = self.fix(v)
+                    nm = self.fresh(e.id)
+                    lets.append((e.id, nm, c, t))
+                for name, nm, c, t in lets:
+                    self.env[name] = (nm, t)
+                body = self.block(rest)
+                for name, nm, c, t in reversed(lets):
+                    body = f"(let {nm} := {c} in\n {body})"
+                return body
             self.bad(s, "assignment target")
         if isinstance(s, ast.If):
             c = self.expr(s.test)
